@@ -231,8 +231,7 @@ pub fn fire_exit(pid: usize) {
         let _ = nth;
         let mut stdout = vec![];
         if let Some(key) = &spec.cmd_key {
-            let p = std::path::Path::new(&rt.plan.vars_dir).join(key);
-            let v = std::fs::read(&p).unwrap_or_default();
+            let v = crate::vfs::lookup_var(std::path::Path::new(&rt.plan.vars_dir), std::path::Path::new(&rt.plan.root), &cwd, key);
             if v.starts_with(b"!fail") {
                 exit = 1;
             } else {
